@@ -85,6 +85,10 @@ pub enum Wrapk {
     Ref,
     Phantom,
     Wrapper,
+    /// `&'lt mut X` (Deref/DerefMut designations only; values are leaked boxes)
+    RefMut,
+    /// `&'lt &'lt X`
+    RefRef,
 }
 pub const WRAPS: [Wrapk; 8] =
     [Wrapk::Option, Wrapk::Vec, Wrapk::Tup, Wrapk::Arr2, Wrapk::Box, Wrapk::Ref, Wrapk::Phantom, Wrapk::Wrapper];
@@ -144,6 +148,34 @@ pub fn wrap(k: Wrapk, x: &FTy, lt: Option<&str>) -> Option<FTy> {
                 v.iter().map(|e| format!("&{e}")).collect(),
                 cmp | CLONE | COPY | CONSTVAL,
                 1,
+            )
+        },
+        Wrapk::RefMut => {
+            if x.refs > 0 {
+                return None;
+            }
+            let lt = lt?;
+            params.push(format!("'{lt}"));
+            (
+                format!("&'{lt} mut {}", x.src),
+                format!("&'static mut {}", x.inst),
+                v.iter().map(|e| format!("::std::boxed::Box::leak(::std::boxed::Box::new({e}))")).collect(),
+                cmp,
+                1,
+            )
+        },
+        Wrapk::RefRef => {
+            if !x.has(CONSTVAL) || x.refs > 0 {
+                return None;
+            }
+            let lt = lt?;
+            params.push(format!("'{lt}"));
+            (
+                format!("&'{lt} &'{lt} {}", x.src),
+                format!("&'static &'static {}", x.inst),
+                v.iter().map(|e| format!("&&{e}")).collect(),
+                cmp | CLONE | COPY | CONSTVAL,
+                2,
             )
         },
         Wrapk::Phantom => (
